@@ -165,7 +165,7 @@ def python_route(env, rec, prog, rng, seedinfo):
 
 
 def plan(tier, seed):
-    n = 9000 if tier == "quick" else 300000
+    n = 9000 if tier == "quick" else 160000
     nshard = 15 if tier == "quick" else 32
     return [{"name": f"gen_{i:02d}", "n": n // nshard, "idx": i} for i in range(nshard)]
 
